@@ -38,4 +38,11 @@ CHECKS.update({
   "note": "Differential oracle; corpus bounded by the universe, all truncation offsets of encodings <= 400 bytes and 8 (quick) / 60 (thorough) mutations per encoding.",
  },
 })
+CHECKS["C02"] = {
+  "level": "exploration",
+  "technique": "attack grammar and resource contract written in TLA+ (EtfAttack.tla), inputs enumerated by TLC and replayed through every decoding entry point under OS-level monitors (2 MiB thread, counting allocator, process isolation)",
+  "text": "TLC enumerates every tag x 15 boundary values of each length/arity/count field x data tails (also nested one level), header and fragment-header lies and 14 nest templates expanded to depth 10^5 (10^6 thorough); python adds compressed sections that lie about their size (64 MB bombs, 300-level nesting), every truncation and seeded mutations/splices of valid encodings. Each input goes through 9 entry points; panic, process death and the largest single allocation (vs 256*(len+inflated)+65536) are observed.",
+  "design_ref": "DESIGN.md §5 C02, §7",
+  "note": "The specification generates the attack surface and states the contract; crash and allocation are facts about a process observed by the harness, not by TLC. Release build in quick, dev build of the nest set in thorough.",
+}
 NOT_APPLICABLE = {}
